@@ -82,6 +82,17 @@ fn judge_one(cx: &Cx, c: &Compared, obs: &Obs, flavour: &str, event: usize, cnt:
         ok = false;
         let diff = first_diff(exp, &got, "").unwrap_or_else(|| "serialization differs".into());
         let kind = diff.split(' ').next().unwrap_or("differs").to_string();
+        // does the differing position lie at or below a response key that several field nodes carry?
+        // Then its value was assembled from several executions and merged afterwards (C04 finding):
+        // a null produced by one execution is overwritten by the object another execution produced.
+        let at = diff.split(" at ").nth(1).unwrap_or("");
+        let repeated = at.split('/').filter(|s| !s.is_empty() && s.parse::<usize>().is_err()).any(|k| agv_common::casecheck::key_occurrences(&c.doc, k) > 1);
+        if repeated && faults > 0 {
+            cx.violation(
+                Violation::new("partial-failure-merged-for-repeated-key", format!("{diff}\n {}", describe()), case()).key("flavour", flavour),
+            );
+            return;
+        }
         cx.violation(
             Violation::new(format!("data-{kind}"), format!("{diff}\n {}", describe()), case()).key("flavour", flavour).key("nulled", target).key("faults", faults.to_string()),
         );
